@@ -89,6 +89,107 @@ GEN_MODULES = {
         "Cv.C15g6.combinations_range",
         "Cv.C15g6.permutations_allPerms",
     ],
+    "C15g9": [
+        "Cv.C15g9.transfer",
+        "Cv.C15g9.nonvac",
+        "Cv.C15g9.all_cycles_gen",
+        "Cv.C15g9.all_cycles_gen_neg",
+        "Cv.C15g9.all_cycles_gen_raw",
+        "Cv.C15g9.all_cycles_write_loop",
+        "Cv.C15g9.all_cycles_source_valid",
+        "Cv.C15g9.all_cycles_source_structure",
+        "Cv.C15g9.all_cycles_source_defined_iff",
+        "Cv.C15g9.all_cycles_source_inverse_closed",
+        "Cv.C15g9.pancake_source_valid",
+        "Cv.C15g9.pancake_source_count",
+        "Cv.C15g9.pancake_source_inverse_closed",
+        "Cv.C15g9.lrx_source_valid",
+        "Cv.C15g9.lrx_source_count",
+        "Cv.C15g9.lrx_source_inverse_closed",
+        "Cv.C15g9.lx_source_valid",
+        "Cv.C15g9.lx_source_count",
+        "Cv.C15g9.lx_source_inverse_closed",
+        "Cv.C15g9.coxeter_source_valid",
+        "Cv.C15g9.coxeter_source_count",
+        "Cv.C15g9.coxeter_source_inverse_closed",
+        "Cv.C15g9.all_transpositions_source_valid",
+        "Cv.C15g9.all_transpositions_source_count",
+        "Cv.C15g9.all_transpositions_source_inverse_closed",
+        "Cv.C15g9.full_reversals_source_valid",
+        "Cv.C15g9.full_reversals_source_count",
+        "Cv.C15g9.full_reversals_source_inverse_closed",
+        "Cv.C15g9.top_spin_source_valid",
+        "Cv.C15g9.top_spin_source_count",
+        "Cv.C15g9.top_spin_source_inverse_closed",
+        "Cv.C15g9.stars_source_valid",
+        "Cv.C15g9.stars_source_count",
+        "Cv.C15g9.stars_source_inverse_closed",
+        "Cv.C15g9.burnt_pancake_source_valid",
+        "Cv.C15g9.burnt_pancake_source_count",
+        "Cv.C15g9.burnt_pancake_source_inverse_closed",
+        "Cv.C15g9.cyclic_coxeter_source_valid",
+        "Cv.C15g9.cyclic_coxeter_source_count",
+        "Cv.C15g9.cyclic_coxeter_source_inverse_closed",
+        "Cv.C15g9.larx_source_valid",
+        "Cv.C15g9.larx_source_count",
+        "Cv.C15g9.larx_source_inverse_closed",
+        "Cv.C15g9.generalized_stars_source_valid",
+        "Cv.C15g9.generalized_stars_source_count",
+        "Cv.C15g9.generalized_stars_source_inverse_closed",
+        "Cv.C15g9.cubic_pancake_source_valid",
+        "Cv.C15g9.cubic_pancake_source_count",
+        "Cv.C15g9.cubic_pancake_source_inverse_closed",
+        "Cv.C15g9.signed_reversals_source_valid",
+        "Cv.C15g9.signed_reversals_source_count",
+        "Cv.C15g9.signed_reversals_source_inverse_closed",
+        "Cv.C15g9.transposons_source_valid",
+        "Cv.C15g9.transposons_source_count",
+        "Cv.C15g9.transposons_source_inverse_closed",
+        "Cv.C15g9.block_interchange_source_valid",
+        "Cv.C15g9.block_interchange_source_count",
+        "Cv.C15g9.block_interchange_source_inverse_closed",
+        "Cv.C15g9.prefix_cycles_source_valid",
+        "Cv.C15g9.prefix_cycles_source_count",
+        "Cv.C15g9.prefix_cycles_source_inverse_closed",
+        "Cv.C15g9.consecutive_k_cycles_source_valid",
+        "Cv.C15g9.consecutive_k_cycles_source_count",
+        "Cv.C15g9.consecutive_k_cycles_source_inverse_closed",
+        "Cv.C15g9.down_cycles_source_valid",
+        "Cv.C15g9.down_cycles_source_count",
+        "Cv.C15g9.down_cycles_source_inverse_closed",
+        "Cv.C15g9.three_cycles_01i_source_valid",
+        "Cv.C15g9.three_cycles_01i_source_count",
+        "Cv.C15g9.three_cycles_01i_source_inverse_closed",
+        "Cv.C15g9.wrapped_k_cycles_source_valid",
+        "Cv.C15g9.wrapped_k_cycles_source_count",
+        "Cv.C15g9.wrapped_k_cycles_source_inverse_closed",
+        "Cv.C15g9.lsl_cycles_source_valid",
+        "Cv.C15g9.lsl_cycles_source_count",
+        "Cv.C15g9.lsl_cycles_source_inverse_closed",
+        "Cv.C15g9.rapaport_m1_source_valid",
+        "Cv.C15g9.rapaport_m1_source_count",
+        "Cv.C15g9.rapaport_m1_source_inverse_closed",
+        "Cv.C15g9.rapaport_m2_source_valid",
+        "Cv.C15g9.rapaport_m2_source_count",
+        "Cv.C15g9.rapaport_m2_source_inverse_closed",
+        "Cv.C15g9.sheveleva2_source_valid",
+        "Cv.C15g9.sheveleva2_source_count",
+        "Cv.C15g9.sheveleva2_source_inverse_closed",
+        "Cv.C15g9.koltsov3_source_valid",
+        "Cv.C15g9.koltsov3_source_count",
+        "Cv.C15g9.koltsov3_source_inverse_closed",
+        "Cv.C15g9.three_cycles_0ij_source_valid",
+        "Cv.C15g9.three_cycles_0ij_source_count",
+        "Cv.C15g9.three_cycles_0ij_source_inverse_closed",
+        "Cv.C15g9.three_cycles_source_valid",
+        "Cv.C15g9.three_cycles_source_count",
+        "Cv.C15g9.three_cycles_source_inverse_closed",
+        "Cv.C15g9.increasing_k_cycles_source_valid",
+        "Cv.C15g9.increasing_k_cycles_source_count",
+        "Cv.C15g9.increasing_k_cycles_source_inverse_closed",
+        "Cv.C15g9.derangements_source_valid",
+        "Cv.C15g9.derangements_source_inverse_closed",
+    ],
     "C15g5": [
         "Cv.C15g5.rapaport_m2_gen",
         "Cv.C15g5.rapaport_m2_gen_neg",
@@ -610,6 +711,7 @@ GEN_FAMILIES = {
     "C15g4": ["prefix_cycles", "consecutive_k_cycles", "down_cycles", "three_cycles_01i", "wrapped_k_cycles", "lsl_cycles"],
     "C15g5": ["rapaport_m2", "koltsov3", "rapaport_m1", "sheveleva2"],
     "C15g6": ["three_cycles_0ij", "three_cycles", "increasing_k_cycles", "derangements"],
+    "C15g9": ["all_cycles"],
 }
 BIG_PARAMS = {
     "transposons": lambda: rng_n(9, 14),
